@@ -7,6 +7,59 @@ open IrVerif.Path
 def gs (j : Json) (k : String) : Except String Str := do return (← getStr j k).toList
 def sJ (s : Str) : Json := Json.str (String.ofList s)
 
+def lookupNode (es : List (Loc × Node)) (l : Loc) : Option Node :=
+  match es with
+  | [] => none
+  | (k, v) :: t => if k = l then some v else lookupNode t l
+
+def lookupDn (es : List (Loc × Nat)) (l : Loc) : Nat :=
+  match es with
+  | [] => 2
+  | (k, v) :: t => if k = l then v else lookupDn t l
+
+def lookupIno (is : List (Nat × Nat × List Nat)) (i : Nat) : Nat × List Nat :=
+  match is with
+  | [] => (0, [])
+  | (k, v) :: t => if k = i then v else lookupIno t i
+
+/-- `{"entries": [[path, "d"|"f"|"l", arg], ...], "inodes": [[id, nlink, data], ...]}` -/
+def parseFS (j : Json) : Except String FS := do
+  let es ← getArr j "entries"
+  let mut entries : List (Loc × Node) := []
+  let mut dns : List (Loc × Nat) := []
+  for e in es do
+    let a ← e.getArr?
+    if a.size != 3 then throw "entry: expected 3 fields"
+    let p ← a[0]!.getStr?
+    let k ← a[1]!.getStr?
+    let n ← match k with
+      | "d" => pure Node.dir
+      | "f" => do pure (Node.file (← a[2]!.getNat?))
+      | "l" => do pure (Node.link (← a[2]!.getStr?).toList)
+      | _ => throw "entry kind"
+    entries := (comps p.toList, n) :: entries
+    if k == "d" then dns := (comps p.toList, (a[2]!.getNat?).toOption.getD 2) :: dns
+  let is ← getArr j "inodes"
+  let mut inodes : List (Nat × Nat × List Nat) := []
+  for i in is do
+    let a ← i.getArr?
+    if a.size != 3 then throw "inode: expected 3 fields"
+    inodes := (← a[0]!.getNat?, ← a[1]!.getNat?, (← a[2]!.getStr?).toList.map Char.toNat) :: inodes
+  return { node := lookupNode entries, dnlink := lookupDn dns, nlink := fun i => (lookupIno inodes i).1,
+           data := fun i => (lookupIno inodes i).2 }
+
+def verdictJ : Verdict → Json
+  | Verdict.skipped => "skipped" | Verdict.rej1 => "c1" | Verdict.rej2 => "c2"
+  | Verdict.rej3 => "c3" | Verdict.pass => "pass"
+
+def parseEP : String → Except String EntryPoint
+  | "numpy" => pure EntryPoint.numpy | "tobytes" => pure EntryPoint.tobytes
+  | "array" => pure EntryPoint.array | "serialize_raw" => pure EntryPoint.serializeRaw
+  | "tofile_bytesio" => pure EntryPoint.tofile | "tofile_file" => pure EntryPoint.tofile
+  | e => throw s!"entry point {e}"
+
+def bytesJ (bs : List Nat) : Json := Json.str (String.ofList (bs.map Char.ofNat))
+
 def handle : Handler := fun m j =>
   match m with
   | "path.normpath" => some do return obj [("r", sJ (normpath (← gs j "p")))]
@@ -20,6 +73,57 @@ def handle : Handler := fun m j =>
       return obj [("r", toJson (check1 (← gs j "cwd") (← gs j "base") (← gs j "loc")))]
   | "path.loadbase" => some do return obj [("r", sJ (loadBase (← gs j "p")))]
   | "path.loadbase_unfixed" => some do return obj [("r", sJ (loadBaseUnfixed (← gs j "p")))]
+  | "path.reads" => some do
+      -- one tree, one cwd, many (base, loc, offset, length, entry point) queries
+      let fs ← parseFS (← j.getObjVal? "fs")
+      let cwdS ← gs j "cwd"
+      let kfuel ← getNat j "kfuel"
+      let fuel ← getNat j "fuel"
+      let qs ← getArr j "queries"
+      let mut out : Array Json := #[]
+      for q in qs do
+        let a ← q.getArr?
+        if a.size != 5 then throw "query: expected 5 fields"
+        let base := (← a[0]!.getStr?).toList
+        let loc := (← a[1]!.getStr?).toList
+        let ep ← parseEP (← a[4]!.getStr?)
+        let r := read fs kfuel fuel cwdS (comps cwdS) base loc (← a[2]!.getNat?) (← a[3]!.getNat?) ep
+        let v := match r.2 with
+          | Ev.check v :: _ => verdictJ v
+          | _ => Json.null
+        let opened : Json := match r.2 with
+          | [_, Ev.openEv _ (some i)] => toJson i
+          | [_, Ev.openEv _ none] => Json.str "fail"
+          | _ => Json.null
+        let res := match r.1 with
+          | ReadResult.raised => obj [("r", "raised"), ("v", v), ("opened", opened)]
+          | ReadResult.ok bs => obj [("r", "ok"), ("v", v), ("opened", opened), ("bytes", bytesJ bs)]
+        out := out.push res
+      return obj [("r", Json.arr out)]
+  | "path.realpaths" => some do
+      let fs ← parseFS (← j.getObjVal? "fs")
+      let cwdS ← gs j "cwd"
+      let kfuel ← getNat j "kfuel"
+      let fuel ← getNat j "fuel"
+      let ps ← getStrs j "paths"
+      return obj [("r", Json.arr (ps.map fun p =>
+        sJ (realpath fs kfuel fuel cwdS (comps cwdS) p.toList)).toArray)]
+  | "path.lstats" => some do
+      -- kernel walk: "d" / "f<ino>" / "l<target>" / "none" for lstat, same for stat (follow)
+      let fs ← parseFS (← j.getObjVal? "fs")
+      let cwdS ← gs j "cwd"
+      let kfuel ← getNat j "kfuel"
+      let follow ← getBool j "follow"
+      let ps ← getStrs j "paths"
+      let show1 := fun (p : String) =>
+        match kresolve fs kfuel (comps cwdS) p.toList follow with
+        | none => Json.str "none"
+        | some l => match fs.get l with
+          | some Node.dir => Json.str "d"
+          | some (Node.file i) => Json.str s!"f{i}"
+          | some (Node.link t) => Json.str ("l" ++ String.ofList t)
+          | none => Json.str "none"
+      return obj [("r", Json.arr (ps.map show1).toArray)]
   | _ => none
 
 end IrVerif.Drive.Path
